@@ -97,9 +97,13 @@ def make_scene(r, integral):
     else:
         img = np.float64(np.float32(img))         # exactly representable in float32
     err = np.float64(np.float32(np.sqrt(np.abs(img)) * 0.25 + 0.5))
+    if integral:
+        # integer-valued errors too (so that integer error arrays are a valid representation); some scenes have errors whose squares
+        # exceed the range of a 16-bit integer
+        err = np.round(err) * r.choice([1, 30, 300])
     mask = np.zeros((ny, nx), bool)
     mask[r.randrange(ny), r.randrange(nx)] = True
-    return dict(data=img, error=err, mask=mask, pos=pos, ny=ny, nx=nx)
+    return dict(data=img, error=err, mask=mask, pos=pos, ny=ny, nx=nx, subpixels=r.choice([2, 3, 7, 12]))
 
 
 # ---------------------------------------------------------------- API table
@@ -111,7 +115,7 @@ def api_aperture_photometry(sc, D, E, U=None):
     aps = [CircularAperture(sc['pos'], 3.3), EllipticalAnnulus(sc['pos'], 2.1, 4.3, 3.2, theta=0.4)]
     out = {}
     for m in ('exact', 'center', 'subpixel'):
-        t = aperture_photometry(D, aps, error=E, mask=sc['mask'], method=m)
+        t = aperture_photometry(D, aps, error=E, mask=sc['mask'], method=m, subpixels=sc['subpixels'])
         out[f'flux:sum0:{m}'], out[f'flux:err0:{m}'] = t['aperture_sum_0'], t['aperture_sum_err_0']
         out[f'flux:sum1:{m}'] = t['aperture_sum_1']
     return out
@@ -327,8 +331,8 @@ def sweep(rep, r, nscenes):
                 rep.case((name, rname, sc['data'].tobytes()), True, kind=f'{name}:{rname}')
                 rep.probe_only += 1
                 try:
-                    # the error array takes the same representation (integer dtypes excepted: the errors are not integral)
-                    got = call(fn, sc, conv(sc['data']), rep_f64(sc['error']) if tolk == 'int' else conv(sc['error']))
+                    # the error array takes the same representation (integral scenes have integer-valued errors)
+                    got = call(fn, sc, conv(sc['data']), conv(sc['error']))
                 except Exception as e:                          # noqa: BLE001
                     rep.violation(f'representation-raises:{name}:{rname}:{type(e).__name__}',
                                   f'{name} succeeds for float64 data but raises {type(e).__name__}: {str(e)[:160]} for the {rname} representation',
@@ -400,7 +404,7 @@ def nd_variant(name):
         aps = [CircularAperture(sc['pos'], 3.3), EllipticalAnnulus(sc['pos'], 2.1, 4.3, 3.2, theta=0.4)]
         out = {}
         for m in ('exact', 'center', 'subpixel'):
-            t = aperture_photometry(nd, aps, method=m)
+            t = aperture_photometry(nd, aps, method=m, subpixels=sc['subpixels'])
             out[f'flux:sum0:{m}'], out[f'flux:err0:{m}'], out[f'flux:sum1:{m}'] = t['aperture_sum_0'], t['aperture_sum_err_0'], t['aperture_sum_1']
         return out
 
